@@ -114,7 +114,7 @@ func triggerObjectScenario(r *Run) {
 	check := func(when string) bool {
 		got := map[string]int{}
 		for _, k := range trig.Poll() {
-			got[fmt.Sprintf("%d@%s", k[0].Int, Sec(k[1].Time))]++
+			got[fmt.Sprintf("%s@%s", ValString(k[0]), Sec(k[1].Time))]++
 		}
 		want := model.poll()
 		r.Log("%s -> poll %s", when, keysString(got))
@@ -139,13 +139,22 @@ func triggerObjectScenario(r *Run) {
 				return
 			}
 		} else {
-			a := 1 + sb.Draw(3)
+			// first key column from {1,2,3,0,NULL}: distinct keys, two of which (0 and NULL) hash alike
+			var av octosql.Value
+			switch a := sb.Draw(5); a {
+			case 3:
+				av = intv(0)
+			case 4:
+				av = octosql.NewNull()
+			default:
+				av = intv(a + 1)
+			}
 			kt := wm + 1 + sb.Draw(3) // key time above the watermark; sometimes at/below it (late key)
 			if sb.Draw(6) == 0 && wm > 0 {
 				kt = 1 + sb.Draw(wm)
 			}
-			key := execution.GroupKey{intv(a), octosql.NewTime(T(kt))}
-			ks := fmt.Sprintf("%d@%d", a, kt)
+			key := execution.GroupKey{av, octosql.NewTime(T(kt))}
+			ks := fmt.Sprintf("%s@%d", ValString(av), kt)
 			trig.KeyReceived(key)
 			model.keyReceived(ks, T(kt))
 			hist.WriteString("key(" + ks + ") ")
